@@ -349,6 +349,84 @@ case("c20_bounds_missing_param", "C20", "R20.4", "fail", """
 #[derive(TypeInfo)] #[scale_info(bounds(T: TypeInfo + 'static))] struct S<T, U> { a: T, b: U }
 fn main() {}
 """, twin="c20_derive_twin", about="bounds() leaving a non-skipped parameter without a bound")
+case("c20_attr_bare", "C20", "R20.4", "fail", """
+#[derive(TypeInfo)] #[scale_info] struct S { a: u8 }
+fn main() {}
+""", twin="c20_derive_twin", about="a bare #[scale_info] attribute (no list) is not a known form")
+case("c20_attr_name_value", "C20", "R20.4", "fail", """
+#[derive(TypeInfo)] #[scale_info = "capture_docs(never)"] struct S { a: u8 }
+fn main() {}
+""", twin="c20_derive_twin", about="the name-value form #[scale_info = \"..\"] is not a known form")
+case("c20_bounds_no_list", "C20", "R20.4", "fail", """
+#[derive(TypeInfo)] #[scale_info(bounds)] struct S<T> { a: T }
+fn main() {}
+""", twin="c20_derive_twin", about="bounds without its predicate list")
+case("c20_skip_no_list", "C20", "R20.4", "fail", """
+#[derive(TypeInfo)] #[scale_info(skip_type_params)] struct S<T> { m: PhantomData<T> }
+fn main() {}
+""", twin="c20_derive_twin", about="skip_type_params without its parameter list")
+case("c20_replace_one_arg", "C20", "R20.4", "fail", """
+#[derive(TypeInfo)] #[scale_info(replace_segment("a"))] struct S { a: u8 }
+fn main() {}
+""", twin="c20_derive_twin", about="replace_segment with one argument")
+case("c20_replace_non_string", "C20", "R20.4", "fail", """
+#[derive(TypeInfo)] #[scale_info(replace_segment(a, b))] struct S { a: u8 }
+fn main() {}
+""", twin="c20_derive_twin", about="replace_segment with non-literal arguments")
+case("c20_capture_docs_non_string", "C20", "R20.4", "fail", """
+#[derive(TypeInfo)] #[scale_info(capture_docs = never)] struct S { a: u8 }
+fn main() {}
+""", twin="c20_derive_twin", about="capture_docs with a non-string value")
+case("c20_bounds_malformed", "C20", "R20.4", "fail", """
+#[derive(TypeInfo)] #[scale_info(bounds(T))] struct S<T> { a: T }
+fn main() {}
+""", twin="c20_derive_twin", about="bounds(..) holding something that is not a where predicate")
+case("c20_two_keys_one_unknown", "C20", "R20.4", "fail", """
+#[derive(TypeInfo)] #[scale_info(capture_docs = "never", frobnicate)] struct S { a: u8 }
+fn main() {}
+""", twin="c20_derive_twin", about="an unknown key after a known one in the same list")
+case("c20_unknown_in_second_attr", "C20", "R20.4", "fail", """
+#[derive(TypeInfo)] #[scale_info(capture_docs = "never")] #[scale_info(frobnicate = 1)] struct S { a: u8 }
+fn main() {}
+""", twin="c20_derive_twin", about="an unknown key in a second attribute")
+case("c20_capture_docs_empty", "C20", "R20.4", "fail", """
+#[derive(TypeInfo)] #[scale_info(capture_docs = "")] struct S { a: u8 }
+fn main() {}
+""", twin="c20_derive_twin", about="capture_docs with the empty string")
+case("c20_capture_docs_prefix", "C20", "R20.4", "fail", """
+#[derive(TypeInfo)] #[scale_info(capture_docs = "nev")] struct S { a: u8 }
+fn main() {}
+""", twin="c20_derive_twin", about="capture_docs with a proper prefix of a valid value")
+case("c20_capture_docs_suffix", "C20", "R20.4", "fail", """
+#[derive(TypeInfo)] #[scale_info(capture_docs = "alwayss")] struct S { a: u8 }
+fn main() {}
+""", twin="c20_derive_twin", about="capture_docs with a valid value followed by more characters")
+case("c20_capture_docs_list", "C20", "R20.4", "fail", """
+#[derive(TypeInfo)] #[scale_info(capture_docs = "default, never")] struct S { a: u8 }
+fn main() {}
+""", twin="c20_derive_twin", about="capture_docs holding two values in one string")
+case("c20_rename_on_item", "C20", "R20.4", "fail", """
+#[derive(TypeInfo)] #[scale_info(rename = "Other")] struct S { a: u8 }
+fn main() {}
+""", twin="c20_derive_twin", about="a member-level key (rename) on the item is an unknown item attribute")
+case("c20_rename_on_item_mixed", "C20", "R20.4", "fail", """
+#[derive(TypeInfo)] #[scale_info(capture_docs = "never", rename = "Other")] enum E { A, B }
+fn main() {}
+""", twin="c20_derive_twin", about="the same next to a valid key")
+case("c13_hygiene_generic", "C13", "R13.5", "pass", """
+#[no_implicit_prelude]
+mod strict {
+    #[derive(::info::TypeInfo)] pub struct Pair<K, V> { pub key: K, pub values: ::std::vec::Vec<V> }
+    #[derive(::info::TypeInfo)] #[scale_info(skip_type_params(H))]
+    pub enum Event<'a, H, T> where T: ::core::clone::Clone { Started(&'a T), Tagged { hasher: ::core::marker::PhantomData<H>, item: T } }
+}
+mod lattice {
+    pub enum Lattice { Some, None, Many }
+    pub use Lattice::*;
+    #[derive(::info::TypeInfo)] #[scale_info(skip_type_params(U))] pub struct Both<T, U> { pub t: T, pub u: ::core::marker::PhantomData<U> }
+}
+fn main() { assert_type_info::<strict::Pair<u8, bool>>(); assert_type_info::<strict::Event<'static, NoInfo, u8>>(); assert_type_info::<lattice::Both<u8, NoInfo>>(); }
+""", about="the generated impl of a generic definition relies on no name in scope at the definition site (no prelude; `Some` / `None` shadowed)")
 case("c20_bounds_projection_twin", "C20", "R20.4", "pass", """
 trait Config { type Balance; }
 #[derive(TypeInfo)] struct Cfg;
